@@ -69,18 +69,17 @@ def CreateCommandVerbatim (wd : Str) (env : List (Str × Str)) (cmd : Str) : Pro
     ∃ pre, lexLine (createCommand (some wd) env cmd) = .ok (pre ++ items) ∧
       runItems e (pre ++ items) = runItems { cwd := some wd, vars := applyEnv e.vars env } items
 
-/-- **`create_command` is verbatim only for tame strings**: a directory of safe characters and values without
-    `"`, `\`, `$`, backtick. (What is missing for the full statement: `cd {workdir}` and `export K="{value}"` are not
-    quoted with `shlex.quote`.) -/
-theorem env_workdir_verbatim_create_command_partial (wd : Str) (env : List (Str × Str)) (cmd : Str)
-    (hwd : wd ≠ [] ∧ wd.all isSafe = true) (hk : ∀ kv ∈ env, keyOk kv.1 = true ∧ kv.2.all dqPlain = true) :
-    CreateCommandVerbatim wd env cmd := by
+/-- **Environment and working directory reach the command verbatim through `create_command`** (the subprocess path of
+    `BaseConnector.run`, `LocalConnector.run`, queue-manager job scripts) — for every directory string and every value, since
+    commit 1a0529c quotes both with `shlex.quote`. -/
+theorem env_workdir_verbatim_create_command (wd : Str) (env : List (Str × Str)) (cmd : Str)
+    (hk : ∀ kv ∈ env, keyOk kv.1 = true) : CreateCommandVerbatim wd env cmd := by
   intro items e hcmd
   refine ⟨[W kwCd, W wd, .op ['&', '&']] ++ exportItems (.op ['&', '&']) env, ?_, ?_⟩
   · have hfeed : feed init (render cc_cd [wd] ++ (env.map (fun kv => render cc_export [kv.1, kv.2])).flatten)
         = { out := [W kwCd, W wd, .op ['&', '&']] ++ exportItems (.op ['&', '&']) env } := by
-      rw [feed_append, feed_cc_cdSeg wd hwd.1 hwd.2]
-      have : ∀ (l : List (Str × Str)), (∀ kv ∈ l, keyOk kv.1 = true ∧ kv.2.all dqPlain = true) → ∀ o : List Item,
+      rw [feed_append, feed_cc_cdSeg wd]
+      have : ∀ (l : List (Str × Str)), (∀ kv ∈ l, keyOk kv.1 = true) → ∀ o : List Item,
           feed { out := o } (l.map (fun kv => render cc_export [kv.1, kv.2])).flatten
             = { out := o ++ exportItems (.op ['&', '&']) l } := by
         intro l
@@ -88,8 +87,8 @@ theorem env_workdir_verbatim_create_command_partial (wd : Str) (env : List (Str 
         | nil => intro _ o; simp [feed, exportItems]
         | cons kv r ih =>
           intro hl o
-          simp only [List.map_cons, List.flatten_cons, feed_append]
-          rw [feed_between _ _ { out := o } rfl (feed_cc_exportSeg kv.1 kv.2 (hl kv (by simp)).1 (hl kv (by simp)).2),
+          rw [List.map_cons, List.flatten_cons, feed_append]
+          rw [feed_between _ _ { out := o } rfl (feed_cc_exportSeg kv.1 kv.2 (hl kv (by simp))),
             ih (fun x hx => hl x (List.mem_cons_of_mem _ hx))]
           simp [exportItems, List.append_assoc]
       exact this env hk _
@@ -97,39 +96,11 @@ theorem env_workdir_verbatim_create_command_partial (wd : Str) (env : List (Str 
     rw [lexLine_append _ _ _ hfeed, hcmd]; rfl
   · have h1 : [W kwCd, W wd, .op ['&', '&']] ++ exportItems (.op ['&', '&']) env ++ items
         = W kwCd :: W wd :: .op ['&', '&'] :: (exportItems (.op ['&', '&']) env ++ items) := by simp
-    rw [h1, runItems_cd e wd _ (by decide), runItems_exports _ (by decide) env _ _ (fun kv h => (hk kv h).1)]
+    rw [h1, runItems_cd e wd _ (by decide), runItems_exports _ (by decide) env _ _ hk]
 
-example : CreateCommandVerbatim "/tmp/w-1".toList [("K".toList, "a b 'c'".toList)] "echo hi".toList :=
-  env_workdir_verbatim_create_command_partial _ _ _ (by decide) (by decide)
-
-/-- the full-strength statement is FALSE of `create_command`: the value `$HOME` is expanded by the shell
-    (known finding; reproduced on the real code by the check) -/
-theorem env_workdir_verbatim_create_command_false :
-    ¬ (∀ wd env cmd, (∀ kv ∈ env, keyOk kv.1 = true) → CreateCommandVerbatim wd env cmd) := by
-  intro h
-  obtain ⟨pre, h1, _⟩ := h "w".toList [("K".toList, "$HOME".toList)] "true".toList (by decide)
-    [W "true".toList] {} (by decide)
-  have h2 : lexLine (createCommand (some "w".toList) [("K".toList, "$HOME".toList)] "true".toList)
-      = .ok [W kwCd, W "w".toList, .op ['&', '&'], W kwExport, .word { cs := "K=$HOME".toList, exp := true },
-             .op ['&', '&'], W "true".toList] := by decide
-  rw [h2] at h1
-  injection h1 with h1
-  have : (.word { cs := "K=$HOME".toList, exp := true } : Item) ∈ pre ++ [W "true".toList] := by rw [← h1]; simp
-  -- then interpreting the line gives no claim at all about K, in particular not K = "$HOME"
-  rcases List.mem_append.mp this with hm | hm
-  · rename_i hrun
-    have hr : runItems {} (pre ++ [W "true".toList]) = none := by rw [← h1]; decide
-    rw [hr] at hrun
-    revert hrun; decide
-  · simp [W] at hm
-
-/-- a directory with a blank splits into two words (`cd a b`), a value with `"` leaves the quote open:
-    the line is not even complete — a persistent shell would wait for more input -/
-theorem create_command_witnesses :
-    lexLine (createCommand (some "a b".toList) [] "true".toList)
-      = .ok [W kwCd, W "a".toList, W "b".toList, .op ['&', '&'], W "true".toList] ∧
-    lexLine (createCommand none [("K".toList, "q\"uote".toList)] "true".toList) = .unterminated ∧
-    lexLine (createCommand none [("K".toList, "`id`".toList)] "true".toList) = .subst := by decide
+/-- non-vacuity: the values that used to be expanded (`$HOME`), executed (backticks) or to unbalance the line (`"`) -/
+example : CreateCommandVerbatim "a b".toList [("K".toList, "$HOME `id` \"q\"".toList)] "echo hi".toList :=
+  env_workdir_verbatim_create_command _ _ _ (by decide)
 
 /-- `CommandTemplateMap.get_command` renders `export K="v"` the same way: the value `$HOME` is expanded, a value with
     `"` unbalances the script (known finding) -/
